@@ -407,9 +407,12 @@ Section WithFile.
   Qed.
 
   (* ---- generator frames against iterator positions *)
+  (* c is the offset of a child of the entry at p in the unit at u *)
+  Definition is_kid (u p c : Z) : Prop :=
+    exists ud, unit_at F u = Some ud /\ In c (kids_of (ud_entries ud) p).
   Inductive cframe_rel (s : state) (u : Z) : cframe -> acframe -> Prop :=
   | CR_start die p : die_at s die u p -> cframe_rel s u (CStart die) (ACStart p)
-  | CR_yield die child p c : die_at s die u p -> die_at s child u c ->
+  | CR_yield die child p c : die_at s die u p -> die_at s child u c -> is_kid u p c ->
       cframe_rel s u (CYield die child c) (ACYield p c)
   | CR_done : cframe_rel s u CDone ACDone.
 
